@@ -79,8 +79,64 @@ def twin_oracle(rep, rng, tier, names):
                 break
 
 
+def dispatch_oracle(rep, rng, tier):
+    """Reachability exercised, not only read off the tables: for every registered decoder a window under the bundled
+    table goes through TracesParser.parse_event_list and must come back as the text the decoder itself produces.  Before
+    that, parsers built on OTHER tables (one that does not name the id, one that gives the id to another decoder) see the
+    same window in the same process: nothing they resolved may make the decoder unreachable afterwards."""
+    from pykdebugparser.kevent import from_kd_buf
+    from pykdebugparser.traces_parser import TracesParser
+    sec = rep.section('dispatch')
+    sec['rule'] = ('every registered decoder x %d windows: parse_event_list under a table without the id, under a table giving '
+                   'the id to another decoder, then under the bundled table; the last must equal str(handler(parser, window))'
+                   % (1 if tier == 'quick' else 12))
+    per = 1 if tier == 'quick' else 12
+    skipped = []
+    names = D.all_handler_names()
+    for n in names:
+        if n not in D.IDS:
+            continue                                   # reported by the tables section
+        eid = D.IDS[n]
+        other = 'BSC_getpid' if n != 'BSC_getpid' else 'BSC_getppid'
+        for _ in range(per):
+            want = None
+            for attempt in range(40):
+                c = D.make_case(rng, n, nlookups=0)
+                if attempt >= 3:                       # random words were out of this decoder's domain: small in-domain ones
+                    c["start"], c["end"] = [rng.randrange(0, 24) for _ in range(4)], [0, rng.randrange(0, 4), 0, 0]
+                events = [from_kd_buf(r) for r in D.window_events(c)]
+                try:
+                    pr = TracesParser(D.CODES, {}, {})
+                    want = str(pr.handlers[n](pr, events))
+                    break
+                except Exception:
+                    continue
+            if want is None:
+                skipped.append(n)
+                continue
+            sec['cases'] += 1
+            got = []
+            for table in ({k: v for k, v in D.CODES.items() if k != eid}, {**D.CODES, eid: other}, D.CODES):
+                try:
+                    t = TracesParser(dict(table), {}, {}).parse_event_list(events)
+                    got.append(None if t is None else str(t))
+                except Exception as e:
+                    got.append('raise ' + core.err_name(e))
+            if got[0] is not None:
+                rep.add_failure('dispatch:decoded-without-name:' + n, 'id %#x is not in the table, yet the window was decoded: %r'
+                                % (eid, got[0]), {'section': 'dispatch', 'case': c})
+            elif got[2] != want:
+                rep.add_failure('dispatch:unreachable:' + n, 'decoder %s under the bundled table after other tables were used in '
+                                'the process: parse_event_list gives %r, the decoder itself %r' % (n, got[2], want),
+                                {'section': 'dispatch', 'case': c})
+            else:
+                sec['distinct_nontrivial'] += 1
+    sec['dist'] = {'decoders_without_in_domain_window': sorted(set(skipped))}
+
+
 def correspondence(rep, rng, tier):
     seen = table_oracle(rep)
+    dispatch_oracle(rep, rng, tier)
     names = [n for n in D.supported_names() if n.endswith('_nocancel') or (n + '_nocancel') in seen]
     D.section_decoders(rep, rng, tier, names=names, name='decoders-twins', per=6 if tier == 'quick' else 80)
     twin_oracle(rep, rng, tier, set(D.all_handler_names()))      # every registered twin, translated or not
@@ -97,6 +153,15 @@ def replay(path):
     rep = core.Report('C17', 'quick', 0)
     if rp.get('section') == 'tables':
         table_oracle(rep)
+    elif rp.get('section') == 'dispatch':
+        saved = D.make_case
+        D.make_case = lambda rng, n, nlookups=None, err=None: rp['case']
+        saved_names = D.all_handler_names
+        D.all_handler_names = lambda: [rp['case']['name']]
+        try:
+            dispatch_oracle(rep, random.Random(0), 'quick')
+        finally:
+            D.make_case, D.all_handler_names = saved, saved_names
     elif rp.get('section') == 'twins':
         c = rp['case']
         a = D.text_of(D.impl_fn(c))
